@@ -65,9 +65,12 @@ pub open spec fn plain(config: RouterConfig, s: Seq<char>, r: PathAndQueryWithSk
     r.path_and_query@ == sanitized(s) && r.skipped_query_params is None && r.original@ == s
     && (r.path_and_query_matching matches Some(m) && m@ == fold_case(config.ignore_path_and_query_case, sanitized(s)))
 }
+// statement: marketing parameters are set aside only when the configuration says so; under EVERY configuration the query is rebuilt from the
+// decoded parameter map (so its order in the request is irrelevant)
+pub open spec fn eff_mk(config: RouterConfig) -> Set<String> { if config.ignore_marketing_query_params { config.marketing_query_params@ } else { Set::empty() } }
 pub open spec fn skipped_ok(config: RouterConfig, r: PathAndQueryWithSkipped, es: Seq<(String, String)>) -> bool {
-    if config.pass_marketing_query_params_to_target && render(es, config.marketing_query_params@, true).len() > 0
-        { r.skipped_query_params matches Some(sk) && sk@ == render(es, config.marketing_query_params@, true) } else { r.skipped_query_params is None }
+    if config.pass_marketing_query_params_to_target && render(es, eff_mk(config), true).len() > 0
+        { r.skipped_query_params matches Some(sk) && sk@ == render(es, eff_mk(config), true) } else { r.skipped_query_params is None }
 }
 pub open spec fn canonical(config: RouterConfig, s: Seq<char>, r: PathAndQueryWithSkipped, path: Seq<char>, query: Option<Seq<char>>) -> bool {
     &&& r.original@ == s
@@ -76,7 +79,7 @@ pub open spec fn canonical(config: RouterConfig, s: Seq<char>, r: PathAndQueryWi
         None => r.path_and_query@ == path && r.skipped_query_params is None,
         Some(q) => exists|es: Seq<(String, String)>| #[trigger] enumerates(es, qmap(q))
             // marketing parameters are ignored for matching ...
-            && r.path_and_query@ == with_q(path, render(es, config.marketing_query_params@, false))
+            && r.path_and_query@ == with_q(path, render(es, eff_mk(config), false))
             // ... and forwarded to the target only when so configured
             && skipped_ok(config, r, es),
     }
@@ -100,18 +103,18 @@ pub proof fn c09_marketing_ignored(es: Seq<(String, String)>, mk: Set<String>, m
 }
 impl PathAndQueryWithSkipped {
     //@@ fn src/http/query.rs :: impl PathAndQueryWithSkipped / fn from_config -> r
-    //@| ensures !config.ignore_marketing_query_params || pq_parse(sanitized(path_and_query_str@)) is None ==> plain(*config, path_and_query_str@, r),
-    //@|     config.ignore_marketing_query_params ==> (pq_parse(sanitized(path_and_query_str@)) matches Some(pv) ==> canonical(*config, path_and_query_str@, r, pv.0, pv.1)),
+    //@| ensures pq_parse(sanitized(path_and_query_str@)) is None ==> plain(*config, path_and_query_str@, r),
+    //@|     pq_parse(sanitized(path_and_query_str@)) matches Some(pv) ==> canonical(*config, path_and_query_str@, r, pv.0, pv.1),
     //@| outline `url.parse()` => `outl_parse_pq(&url)`
     //@| outline `parse_query(query.as_bytes()).into_owned().collect()` => `outl_parse_query(query)`
     //@| outline `utf8_percent_encode(key, QUERY_ENCODE_SET).to_string()` => `outl_enc_q(key)`
     //@| outline `utf8_percent_encode(value, QUERY_ENCODE_SET).to_string()` => `outl_enc_q(value)`
-    //@| exit proof { if config.ignore_marketing_query_params && pq_parse(sanitized(path_and_query_str@)) is Some { let pv = pq_parse(sanitized(path_and_query_str@)).unwrap(); if pv.1 is Some { let q = pv.1.unwrap(); assert(exists|es: Seq<(String, String)>| #[trigger] enumerates(es, qmap(q)) && vf_ret.path_and_query@ == with_q(pv.0, render(es, config.marketing_query_params@, false)) && skipped_ok(*config, vf_ret, es)); } } }
+    //@| exit proof { if pq_parse(sanitized(path_and_query_str@)) is Some { let pv = pq_parse(sanitized(path_and_query_str@)).unwrap(); if pv.1 is Some { let q = pv.1.unwrap(); assert(exists|es: Seq<(String, String)>| #[trigger] enumerates(es, qmap(q)) && vf_ret.path_and_query@ == with_q(pv.0, render(es, eff_mk(*config), false)) && skipped_ok(*config, vf_ret, es)); } } }
     //@| opt r5:0
     //@| opt r6:0
     //@| attr #[verifier::loop_isolation(false)]
     //@| entry broadcast use group_hash_axioms; broadcast use axiom_string_key_model; broadcast use vstd::std_specs::btree::group_btree_axioms; broadcast use axiom_string_cmp;
-    //@|     let ghost mk = config.marketing_query_params@; proof { axiom_string_ext(); lit_empty(); }
+    //@|     let ghost mk = eff_mk(*config); proof { axiom_string_ext(); lit_empty(); }
     //@| loopbefore 0: let ghost qm = hash_query@; let ghost es = ents(vf_it0_rem0);
     //@| loop 0: invariant 0 <= vf_it0_idx <= vf_it0_rem0.len(), vf_it0.remaining() == vf_it0_rem0.skip(vf_it0_idx), vf_it0_rem0.len() == qm.len(), es == ents(vf_it0_rem0),
     //@|     query_string@ == render(es.take(vf_it0_idx), mk, false),
